@@ -371,3 +371,87 @@ def programs(rng, n):
         if valid(s):
             out.append(s)
     return out
+
+
+# ----------------------------------------------------------------------------------------------------------------------
+# deterministic product: every construct whose parts belong to the enclosing scope x generic x decorated x kind x nesting
+
+def product_programs():
+    """def / async def / class / lambda, nested 1-2 levels inside def / class / module, with every header part that
+    belongs to the enclosing scope present or absent (decorators, bases, keywords, defaults, kw_defaults, annotations,
+    returns, type-parameter bounds), plus comprehension first iterables, walrus targets and lambda defaults in them."""
+    out = []
+    n = [0]
+
+    def nm(p):
+        n[0] += 1
+        return f'{p}{n[0]}'
+
+    def inner(kind, deco, generic, rich):
+        """lines of one nested scope-defining statement"""
+        lines = []
+        if deco:
+            lines += [f'@{nm("dec")}({nm("darg")}, key=lambda k=({nm("ddf")}): k)', f'@{nm("dec")}']
+        tp = f'[T: {nm("bnd")}, *Ts, **P]' if generic else ''
+        if kind == 'class':
+            bases = f'({nm("base")}, {nm("base")}[{nm("bidx")}], metaclass={nm("meta")}, **{nm("kws")})' if rich else f'({nm("base")})'
+            lines += [f'class {nm("K")}{tp}{bases}:', f'    attr = {nm("cbody")}',
+                      f'    def meth(self, q={nm("mdf")}): return {nm("mbody")}']
+        elif kind in ('def', 'async def'):
+            if rich:
+                ps = (f'p1: {nm("ann")} = {nm("df")}, /, p2: {nm("ann")} = [c for c in {nm("dfit")}({nm("dfarg")})], '
+                      f'*va: {nm("ann")}, k1: {nm("ann")} = {nm("kdf")}, k2=({nm("w")} := {nm("kdf")}), **kw: {nm("ann")}')
+                ret = f' -> {nm("ret")}[{nm("retidx")}]'
+            else:
+                ps, ret = f'p1={nm("df")}', ''
+            lines += [f'{kind} {nm("fn")}{tp}({ps}){ret}:', f'    loc = {nm("fbody")}', '    return loc, p1']
+        else:   # lambda
+            ps = f'l1, l2={nm("ldf")}, *lv, l3=[e for e in {nm("ldfit")}.{nm("attr")}], **lk' if rich else f'l1={nm("ldf")}'
+            lines += [f'{nm("var")} = lambda {ps}: ({nm("lbody")}, l1)']
+        return lines
+
+    kinds = ['def', 'async def', 'class', 'lambda']
+    for outer in ('module', 'def', 'class', 'def>def', 'def>class', 'class>def'):
+        for kind in kinds:
+            for deco in (False, True):
+                for generic in (False, True):
+                    if kind == 'lambda' and (deco or generic):
+                        continue
+                    for rich in (False, True):
+                        body = inner(kind, deco, generic, rich)
+                        body.append(f'{nm("after")} = [{nm("elt")} for v in {nm("it")}({nm("itarg")}) if ({nm("wal")} := v)]'
+                                    if 'class' not in outer.split('>')[-1] or outer == 'module' else f'{nm("after")} = {nm("plain")}')
+                        lines = body
+                        for lvl in reversed(outer.split('>')):
+                            if lvl == 'module':
+                                continue
+                            hdr = f'def {nm("outer")}(oa, ob={nm("odf")}):' if lvl == 'def' else f'class {nm("Outer")}({nm("obase")}):'
+                            lines = [hdr] + ['    ' + l for l in lines]
+                        src = '\n'.join(lines) + '\n'
+                        if valid(src):
+                            out.append(src)
+    return out
+
+
+# replacement sources for the walk-with-mutation sweep: one per scope kind
+REPLACEMENTS = {
+    'Name': 'rp_name',
+    'Call': 'rp_fn(rp_arg, key=rp_kw)',
+    'Lambda': 'lambda rp_p, rp_q=rp_dflt: rp_p.attr * rp_q * rp_free',
+    'ListComp': '[rp_e + rp_out for rp_e in rp_iter(rp_iarg) if rp_cond]',
+    'GeneratorExp': '(rp_g for rp_g in rp_git if rp_g)',
+    'DictComp': '{rp_k: rp_v for rp_k, rp_v in rp_items}',
+    'FunctionDef': 'def rp_def(rp_a=rp_ddf, *rp_va, rp_kw=rp_kdf) -> rp_ret:\n    return rp_a, rp_inner',
+    'ClassDef': '@rp_deco\nclass rp_cls(rp_base, metaclass=rp_meta):\n    rp_attr = rp_cbody',
+}
+
+# deterministic: a target of every kind in a function, replaced by every other kind
+MUT_TEMPLATES = {
+    'Name': 'def f(items, factor):\n    key = HELPER\n    return sorted(items, key=key)\n',
+    'Call': 'def f(items, factor):\n    key = make(items, factor)\n    return sorted(items, key=key)\n',
+    'Lambda': 'def f(items, factor):\n    key = lambda it, sc=factor: it.w * sc * bias\n    return sorted(items, key=key)\n',
+    'ListComp': 'def f(items, factor):\n    key = [i * factor for i in items if i]\n    return sorted(items, key=key)\n',
+    'GeneratorExp': 'def f(items, factor):\n    key = list(i * factor for i in items)\n    return sorted(items, key=key)\n',
+    'FunctionDef': 'def f(items, factor):\n    @wrap(factor)\n    def key(it, sc=factor) -> res:\n        return it * sc * bias\n    return sorted(items, key=key)\n',
+    'ClassDef': 'def f(items, factor):\n    @wrap(factor)\n    class key(base, kw=factor):\n        w = bias\n    return sorted(items, key=key)\n',
+}
